@@ -1567,6 +1567,12 @@ def _b_any(interp, args, kw):
 
 
 def _b_all(interp, args, kw):
+    if _symbolic_len(args[0]):
+        # all(phi(y) for y in <sequence of symbolic length>): a fresh Boolean b with the schema  b => phi(seq[i]) for every index i
+        # (and  not b => some index fails), registered on the path and instantiated where needed (symstruct.instantiate_all)
+        b = z3.Bool(f"all!{next(interp.path.fresh)}")
+        interp.path.qfacts.append(("all", b, args[0], None))
+        return Z(b)
     for x in interp.iterate(args[0]):
         if not interp.truth(x):
             return False
